@@ -93,6 +93,46 @@ pub fn run(args: &[String]) -> i32 {
             }
             0
         }
+        Some("kinds") => {
+            // node-kind coverage: corpus vs svgen (developer statistic quoted in DESIGN.md)
+            let root = std::path::PathBuf::from(args.get(1).cloned().unwrap_or_else(|| "/verif".to_string()));
+            let n: usize = args.get(2).and_then(|s| s.parse().ok()).unwrap_or(3000);
+            let handle = std::thread::Builder::new()
+                .stack_size(1 << 30)
+                .spawn(move || {
+                    let corpus = crate::corpus::Corpus::load(&root);
+                    let mut kc: std::collections::BTreeSet<String> = Default::default();
+                    let mut kg: std::collections::BTreeSet<String> = Default::default();
+                    for f in &corpus.sv {
+                        if let Ok((tree, _)) = sv::parse_text(sv::Grammar::Sv, &f.text, false) {
+                            for n in &tree {
+                                kc.insert(sv::kind(&n));
+                            }
+                        }
+                    }
+                    let mut seed = 12345u64;
+                    for _ in 0..n {
+                        let l = (lcg(&mut seed) as usize) % 1201;
+                        let data: Vec<u32> = (0..l).map(|_| lcg(&mut seed)).collect();
+                        let mut t = Tape::new(&data);
+                        let p = svgen::generate(&mut t, &svgen::Cfg::default());
+                        let mut f = Feats::default();
+                        let text = p.render(&mut t, &TriviaCfg::full(), &mut f);
+                        if let Ok((tree, _)) = sv::parse_text(sv::Grammar::Sv, &text, false) {
+                            for n in &tree {
+                                kg.insert(sv::kind(&n));
+                            }
+                        }
+                    }
+                    let union: std::collections::BTreeSet<_> = kc.union(&kg).cloned().collect();
+                    println!("corpus kinds {} svgen kinds {} union {} only-svgen {} only-corpus {}", kc.len(), kg.len(), union.len(), kg.difference(&kc).count(), kc.difference(&kg).count());
+                    let only_corpus: Vec<_> = kc.difference(&kg).cloned().collect();
+                    println!("only in corpus (first 80): {:?}", &only_corpus[..only_corpus.len().min(80)]);
+                })
+                .unwrap();
+            handle.join().unwrap();
+            0
+        }
         Some("textgen") => {
             let n: usize = args.get(1).and_then(|s| s.parse().ok()).unwrap_or(100);
             let mut seed: u64 = args.get(2).and_then(|s| s.parse().ok()).unwrap_or(1);
